@@ -1,7 +1,8 @@
-//go:build verif
+//go:build verif && verif_proxy
 
 // Export shim injected into package l4proxy with `go test -overlay` by the
-// verification harness in /verif. It only adds functions.
+// verification harness in /verif (build tags verif + verif_proxy: compiled for the C10 and C11 checks only,
+// because it depends on the fields of peer and Upstream). It only adds functions.
 package l4proxy
 
 import (
@@ -53,9 +54,9 @@ func (u *Upstream) VerifPeerState(i int) VerifPeer {
 	}
 }
 
-func (u *Upstream) VerifNumPeers() int    { return len(u.peers) }
-func (u *Upstream) VerifAvailable() bool  { return u.available() }
-func (u *Upstream) VerifTotalConns() int  { return u.totalConns() }
+func (u *Upstream) VerifNumPeers() int   { return len(u.peers) }
+func (u *Upstream) VerifAvailable() bool { return u.available() }
+func (u *Upstream) VerifTotalConns() int { return u.totalConns() }
 
 // VerifUpstreams exposes the provisioned upstream pool of a handler.
 func (h *Handler) VerifUpstreams() UpstreamPool { return h.Upstreams }
